@@ -33,7 +33,12 @@ type cliH struct {
 	rdDone   chan struct{}
 	badFrame []string
 	wmu      sync.Mutex
+	// handshake overrides
+	forceVersion  string // answer with this version string instead of echoing the client's
+	zeroMeansZero bool   // msize 0 is answered literally (default: 0 = echo the proposal)
 }
+
+func (h *cliH) frameCount() int { h.mu.Lock(); defer h.mu.Unlock(); return h.frames }
 
 // newCliH creates the pipe and the fake server; the client session is created by dial.
 func newCliH(serverMsize uint32, bufCap int) *cliH {
@@ -93,10 +98,14 @@ func (h *cliH) reader() {
 			if first {
 				if tv, ok := fc.Message.(p9p.MessageTversion); ok {
 					ms := h.msize
-					if ms == 0 {
+					if ms == 0 && !h.zeroMeansZero {
 						ms = tv.MSize
 					}
-					h.reply(&p9p.Fcall{Type: p9p.Rversion, Tag: fc.Tag, Message: p9p.MessageRversion{MSize: ms, Version: tv.Version}})
+					ver := tv.Version
+					if h.forceVersion != "" || h.zeroMeansZero {
+						ver = h.forceVersion
+					}
+					h.reply(&p9p.Fcall{Type: p9p.Rversion, Tag: fc.Tag, Message: p9p.MessageRversion{MSize: ms, Version: ver}})
 				}
 				continue
 			}
